@@ -15,31 +15,38 @@ import Rbacx.Run.C02_whole
   are about (imported): `Src.actions`, `Src.categorize` (C03_translated), `Src.match_resource`, `Src.is_strict` (C05_translated),
   `Src.evaluate`, `Src.decide` (C02_whole).
 
-  Proved here, on the generated text:
+  Proved here, on the generated text (nothing of `compile` / `decide` is hand-modelled any more):
 
+  * **`compile_decide_src`** (and `compile_decide_whole`, the same with the hypotheses stated on `rulesOf`) — for every dict policy without a
+    `policies` key whose `rules` is falsy or a list of dicts, every dict env whose `resource` is a dict or falsy, every oracle, with
+    `c.compilerDefault = Src.compile_default` and `policy.size + 2 < fuel`:
+    `Src.compile_decide cx.o noAttr (parseDtExt cx.o) (relExt cx) policy cx.env fuel = (compiledDecide cx c policy).map encRaw` — the same
+    dict (five keys, source order) or the same exception.  The proof simulates the five generated loops: the index loop keeps `InvA`
+    (`order` = identity ↦ position, `star_rules` = the '*' rules in order, `by_action` holds under every action exactly the rules naming
+    it: `index_step` / `ByAct.*`); the two collection loops are folds of `stepC` (`collect_body`), and with the stable sort by `order`
+    they give the tagged rules filtered by `isCandidate` in document order (`collect_sort_eq_filter`); the bucket loop keeps
+    `encB` (bucket `i` = the candidates of category `i`, `matched[i]` = one of them matches: `bucket_step`, with `Src.categorize` /
+    `Src.match_resource` replaced by what C03_translated / C05_translated prove them equal to); the selection loop is the first
+    bucket with a matching rule (`select_loop_bind`) = the model's `selectBucket` (`selectBucket_map`); the last call is `evaluate_src`
+    of C02_whole on the compiled policy (`evaluate_compiled`: lowering the algorithm twice is lowering it once, `asciiLower_idem`; the
+    compiled policy is no larger than the policy + 2, `sizeL_sublist`).  So `c03_compiled_eq_reference`, `c03_irrelevant_rule` and
+    `c03_guard` speak about what compiler.py says now.
+    Hypotheses, honestly: a truthy non-list `rules` makes CPython raise at compile time (TypeError / AttributeError) where the model
+    answers — outside; an item of `rules` or an `env` / `env["resource"]` that is not a dict makes CPython raise AttributeError where the
+    model's `get` answers None — outside (DESIGN §2.1); a rules list that holds ONE dict object twice is not represented (identity =
+    position); the externals of `eval_condition` are instantiated as in C02_whole / C04_translated.
   * `compile_decide_set_delegates` — for every dict document with a `policies` key, every env, every budget:
     `Src.compile_decide … = Src.decide …` (a set is not compiled), and `compile_decide_set`: what it returns `Represents` (field by
     field) the model's `compiledDecide` = `decideTree` of the document's tree, or it raises the exception the model raises
     (`decide_src` of C02_whole; hypotheses: the tree is well-formed `DictTree`, env is a dict, the budget exceeds the size, the model's
     two set defaults are the literal "deny-overrides" of policyset.py).  So `c03_set_delegates` speaks about what compiler.py says now.
-  * `compile_decide_algorithm_error` — for every dict policy without `policies`: when `(policy.get("algorithm") or <the source's
-    literal>).lower()` raises (a truthy non-string algorithm), `compile(policy)(env)` raises the same exception as the model
-    `compiledDecide` with `compilerDefault := Src.compile_default`, whatever the rules and the env are.
-
-  PARTIAL.  The full statement for single policies is `compile_decide_src` in the comment at the end of this file.  Of its proof, the
-  parts that do not depend on the generated text are done and audited (Proofs/CompileTranslated.lean): the tagged rules are strictly
-  sorted by identity; `order` maps identity `i` to position `i` (`idGet_idEntries`); the index `by_action` holds under every action
-  exactly the rules naming it, whatever order the loop over the actions takes (`ByAct.add` / `ByAct.skip_star` / `ByAct.close` /
-  `ByAct.get`); and the key step `collect_sort_eq_filter`: collecting ANY two lists that hold exactly the tagged rules naming the
-  action / listing '*' through the `seen` set and sorting stably by identity gives the rules filtered by `isCandidate` in document
-  order.  What is missing is the simulation of the five generated loops by these lemmas (`forLoop_inv`, `forLoop_fold_enc`), the
-  bucket fold and the final `evaluate_src` step; until then the index / bucket part of `compile` is tied to the model by the
-  differential runs (`translated_whole_vs_python` in props/c03.py: the evaluated translation vs the real `compile(policy)(env)`,
-  and the model vs the real engine) and by three WITNESSES evaluated by the kernel on the generated text (`witness_document_order`,
-  `witness_unmatched_bucket`, `witness_most_specific_first`: the sort, the `matched` flags, the order of the selection loop) — not
-  proofs for all inputs, but a change of one of these decisions makes this obligation fail.
+  * `compile_decide_algorithm_error` — a corollary kept for its weaker hypotheses (any rules, any env): when
+    `(policy.get("algorithm") or <the source's literal>).lower()` raises, `compile(policy)(env)` raises what the model raises.
+  * three NON-VACUITY witnesses evaluated by the kernel on the generated text and on the model (`witness_document_order`,
+    `witness_unmatched_bucket`, `witness_most_specific_first`).
 -/
 set_option linter.unusedSimpArgs false
+set_option linter.unusedVariables false
 namespace Rbacx.Translated
 open Rbacx Rbacx.Py Rbacx.PyE Rbacx.PyI Rbacx.Generated PyVal
 
@@ -71,11 +78,185 @@ theorem compile_decide_algorithm_error (cx : CondCtx) (c : Consts) (policy env :
   simp only [containsE_dict_key hpol, bind_ok, truthy_bool, hsingle, Bool.false_eq_true, if_false, getE_isDict hpol, lowerE_por, hc, hlow,
     Except.map, bind_error, and_self]
 
-/-! ### witnesses on the generated text
+theorem truthy_pnot_encStrs (l : List String) : (Py.pnot (encStrs l)).truthy = l.isEmpty := by
+  cases l <;> rfl
 
-  NOT proofs for all inputs: three concrete documents, evaluated by the kernel on the CURRENT text of `compile` (and on the model), one
-  for each decision the index / bucket part takes that the partial theorems above do not cover.  A change of the source that alters
-  one of these decisions makes this obligation fail (the check then searches for a failing input on the real engine). -/
+theorem containsE_encStrs (l : List String) (a : String) : containsE (encStrs l) (.str a) = .ok (.bool (l.contains a)) := by
+  have h := contains_encStrs l (.str a)
+  have e : containsE (encStrs l) (.str a) = .ok (Py.contains (encStrs l) (.str a)) := rfl
+  rw [e, h]
+
+theorem iterE_encStrs (l : List String) : iterE (encStrs l) = .ok (l.map PyVal.str) := rfl
+
+theorem action_str (o : Oracle) (av : PyVal) :
+    (if (Py.isNotNone av).truthy = true then Py.strO o av else PyVal.str "") = .str (if av.isNone = true then "" else o.pyStr av) := by
+  cases h : av.isNone <;> simp [Py.isNotNone, h, Py.strO, PyVal.truthy]
+
+theorem restype_opt (o : Oracle) (rt : PyVal) :
+    (if (Py.isNone rt).truthy = true then PyVal.none else Py.strO o rt) = optToVal (if rt.isNone = true then Option.none else some (o.pyStr rt)) := by
+  cases h : rt.isNone <;> simp [Py.isNone, h, Py.strO, PyVal.truthy, optToVal]
+
+theorem categorize_le3 (r : PyVal) (x : Option String) (n : Nat) (h : Rbacx.categorize r x = some n) : n ≤ 3 := by
+  unfold Rbacx.categorize at h
+  simp only at h
+  split at h
+  · cases h
+  · split at h
+    · injection h with h; omega
+    · split at h
+      · injection h with h; omega
+      · split at h <;> (injection h with h; omega)
+
+/-- **`compile(policy)(env)` as the source has it now, for a single policy: the whole function and the closure it returns** (see the
+    header for the hypotheses): the same dict — five keys, source order — or the same exception as the model's `compiledDecide` with
+    `compilerDefault :=` the literal of the source -/
+theorem compile_decide_src (cx : CondCtx) (c : Consts) (policy : PyVal) (fuel : Nat)
+    (hc : c.compilerDefault = Src.compile_default)
+    (hpol : policy.isDict = true) (hsingle : policy.hasKey "policies" = false) (henv : cx.env.isDict = true)
+    (hres : (por (cx.env.get "resource") (.dict [])).isDict = true)
+    (rs : List PyVal) (hlist : por (policy.get "rules") (.list []) = .list rs) (hrules : ∀ r ∈ rs, r.isDict = true)
+    (hfuel : policy.size + 2 < fuel) :
+    Src.compile_decide cx.o noAttr (parseDtExt cx.o) (relExt cx) policy cx.env fuel = (compiledDecide cx c policy).map encRaw := by
+  unfold Src.compile_decide compiledDecide
+  simp only [containsE_dict_key hpol, bind_ok, truthy_bool, hsingle, Bool.false_eq_true, if_false, getE_isDict hpol, lowerE_por, hc, hlist]
+  cases hlow : lowerField (policy.get "algorithm") Src.compile_default with
+  | error e => rfl
+  | ok algo =>
+    simp only [Except.map, bind_ok, tagList_list, iterE_list]
+    refine forLoop_inv_bind InvA _ _ _ _ _ ⟨rfl, rfl, [], rfl, byAct_nil _⟩ ?stepA ?afterA
+    case stepA =>
+      intro p x q s hsplit hinv
+      obtain ⟨o, st, ba⟩ := s
+      obtain ⟨h1, h2, kvs, h3, hby⟩ := hinv
+      simp only at h1 h2 h3
+      subst h1 h2 h3
+      obtain ⟨hx, hv⟩ := eq_tag_of_split hsplit
+      generalize untag x = v at hx hv
+      subst hx
+      simp only [lenE_idEntries, bind_ok, idOf_tag, untag_tag, idSetdefault_idEntries, actions, truthy_pnot_encStrs, containsE_encStrs,
+        iterE_encStrs, truthy_bool]
+      exact index_step _ p kvs v (fun s a => rfl) hby
+    case afterA =>
+      intro s hinv
+      obtain ⟨o, st, ba⟩ := s
+      obtain ⟨h1, h2, kvs, h3, hby⟩ := hinv
+      simp only at h1 h2 h3
+      subst h1 h2 h3
+      simp only [getE_isDict henv, getE_isDict hres, bind_ok, action_str, restype_opt]
+      generalize hres' : (cx.env.get "resource").por (dict []) = res at *
+      generalize hrt : (if (res.get "type").isNone = true then Option.none else some (cx.o.pyStr (res.get "type"))) = rtO
+      generalize hact : (if (cx.env.get "action").isNone = true then "" else cx.o.pyStr (cx.env.get "action")) = a
+      have hT := tagFrom_sorted 0 rs
+      have htag : ∀ x ∈ tagFrom 0 rs, IsTagged x := fun x hx => tagged_of_mem_tagFrom hx
+      obtain ⟨l, hl, hmem⟩ := hby.get a
+      rw [hl]
+      simp only [bind_ok, iterE_list]
+      refine forLoop_fold_enc_bind encCS stepC _ l ([], []) _ _ ?h1 ?k1
+      case h1 =>
+        intro s x hx
+        exact collect_body s.1 s.2 x (htag x ((hmem x).mp hx).1)
+      case k1 =>
+        refine forLoop_fold_enc_bind encCS stepC _ _ (l.foldl stepC ([], [])) _ _ ?h2 ?k2
+        case h2 =>
+          intro s x hx
+          exact collect_body s.1 s.2 x (htag x (List.mem_filter.mp hx).1)
+        case k2 =>
+          have hkey : ∀ x ∈ tagFrom 0 rs, (fun r => idGet (list (idEntries (tagFrom 0 rs).length)) (idOf r) (int 0)) x = .int (tagNat x) := by
+            intro x hx
+            simp only [(htag x hx).idOf]
+            exact idGet_idEntries _ _ (by have := mem_tagFrom_lt hx; rw [tagFrom_length]; omega) _
+          have hcs := collect_sort_eq_filter (tagFrom 0 rs) l ((tagFrom 0 rs).filter starP) (namedP a) starP _ hT htag hmem
+            (fun x => List.mem_filter) hkey
+          simp only [encCS, sortBy, hcs, iterE_list, bind_ok]
+          generalize hC : List.filter (fun x => namedP a x || starP x) (tagFrom 0 rs) = C
+          have hCmem : ∀ x ∈ C, x ∈ tagFrom 0 rs := by subst hC; intro x hx; exact (List.mem_filter.mp hx).1
+          simp only [categorize, strict_arg_src, match_resource]
+          refine forLoop_inv_bind (fun p s => s = encB (fun x => Rbacx.categorize (untag x) rtO)
+            (fun x => matchResource cx.o (isStrict cx.env) (por ((untag x).get "resource") (dict [])) res) p) _ _ _ _ _ rfl ?stepC ?afterC
+          case stepC =>
+            intro p x q s hsplit hs
+            subst hs
+            have hxC : x ∈ C := by rw [hsplit]; simp
+            have hd : (untag x).isDict = true := hrules _ (mem_tagFrom_untag (hCmem x hxC))
+            refine ⟨_, ?_, rfl⟩
+            simp only [getE_isDict hd, bind_ok]
+            exact bucket_step _ _ (fun x n h => categorize_le3 _ _ n h) p x
+          case afterC =>
+            intro s hs
+            subst hs
+            refine select_loop_bind
+              (fun x => matchResource cx.o (isStrict cx.env) (por ((untag x).get "resource") (dict [])) res)
+              (C.filter fun x => Rbacx.categorize (untag x) rtO == some 0) (C.filter fun x => Rbacx.categorize (untag x) rtO == some 1)
+              (C.filter fun x => Rbacx.categorize (untag x) rtO == some 2) (C.filter fun x => Rbacx.categorize (untag x) rtO == some 3)
+              _ _ _ ?h0 ?h1 ?h2 ?h3 ?kS
+            case h0 => intro sel; simp only [encB, (itemE4 _ _ _ _).1]; exact select_body_aux _ _ _
+            case h1 => intro sel; simp only [encB, (itemE4 _ _ _ _).2.1]; exact select_body_aux _ _ _
+            case h2 => intro sel; simp only [encB, (itemE4 _ _ _ _).2.2.1]; exact select_body_aux _ _ _
+            case h3 => intro sel; simp only [encB, (itemE4 _ _ _ _).2.2.2]; exact select_body_aux _ _ _
+            case kS =>
+              have hro : rulesOf policy = rs := by unfold rulesOf; rw [hlist]
+              have hd : Src.compile_default ≠ "" := by decide
+              obtain ⟨hne, hfix⟩ := lowerField_fix hlow hd
+              rw [hro, candidates_map rs a, hC, selectBucket_map]
+              generalize hsel : selectB (fun x => matchResource cx.o (isStrict cx.env) (por ((untag x).get "resource") (dict [])) res)
+                [C.filter fun x => Rbacx.categorize (untag x) rtO == some 0, C.filter fun x => Rbacx.categorize (untag x) rtO == some 1,
+                 C.filter fun x => Rbacx.categorize (untag x) rtO == some 2, C.filter fun x => Rbacx.categorize (untag x) rtO == some 3] = sel
+              have hsub : sel.Sublist C := by rw [← hsel]; exact selectB_sublist _ _ _ _ _ _
+              have hsub2 : (sel.map untag).Sublist rs := by
+                have h1 : C.Sublist (tagFrom 0 rs) := by rw [← hC]; exact List.filter_sublist
+                have := (hsub.trans h1).map untag
+                rwa [map_untag_tagFrom] at this
+              simp only [untagList, dictOf_two]
+              have hsz : (PyVal.dict [("algorithm", .str algo), ("rules", .list (sel.map untag))]).size < fuel := by
+                rw [size_compiled]
+                have h1 := sizeL_sublist hsub2
+                have h2 : sizeL rs + 1 ≤ policy.size := by
+                  by_cases ht : (policy.get "rules").truthy = true
+                  · have h3 := size_get_lt_of_truthy policy "rules" ht
+                    have h4 : policy.get "rules" = .list rs := by rw [← hlist]; unfold por; simp [ht]
+                    rw [h4] at h3
+                    simp only [PyVal.size] at h3
+                    omega
+                  · have h4 : rs = [] := by
+                      unfold por at hlist
+                      simp only [ht, Bool.false_eq_true, if_false] at hlist
+                      injection hlist with hlist; exact hlist.symm
+                    subst h4
+                    have := size_pos policy
+                    simp only [sizeL]; omega
+                omega
+              have hrd : ∀ r ∈ rulesOf (PyVal.dict [("algorithm", .str algo), ("rules", .list (sel.map untag))]), r.isDict = true := by
+                intro r hr
+                have : rulesOf (PyVal.dict [("algorithm", .str algo), ("rules", .list (sel.map untag))]) = sel.map untag := by
+                  unfold rulesOf
+                  have : (PyVal.dict [("algorithm", .str algo), ("rules", .list (sel.map untag))]).get "rules" = .list (sel.map untag) := by simp [PyVal.get, lookup]
+                  rw [this, por_list_nil]
+                rw [this] at hr
+                exact hrules r (hsub2.subset hr)
+              rw [evaluate_src cx _ PyVal.none fuel rfl rfl henv hrd hsz, evaluate_compiled cx algo _ hne hfix]
+              cases rulesLoop cx algo {} (sel.map untag) <;> rfl
+
+
+/-- the same, with the hypotheses stated on the policy: `rules` is falsy or a list, and its items are dicts -/
+theorem compile_decide_whole (cx : CondCtx) (c : Consts) (policy : PyVal) (fuel : Nat)
+    (hc : c.compilerDefault = Src.compile_default)
+    (hpol : policy.isDict = true) (hsingle : policy.hasKey "policies" = false) (henv : cx.env.isDict = true)
+    (hres : (por (cx.env.get "resource") (.dict [])).isDict = true)
+    (hlist : (por (policy.get "rules") (.list [])).isList = true) (hrules : ∀ r ∈ rulesOf policy, r.isDict = true)
+    (hfuel : policy.size + 2 < fuel) :
+    Src.compile_decide cx.o noAttr (parseDtExt cx.o) (relExt cx) policy cx.env fuel = (compiledDecide cx c policy).map encRaw := by
+  cases h : por (policy.get "rules") (.list []) with
+  | list rs =>
+    refine compile_decide_src cx c policy fuel hc hpol hsingle henv hres rs h ?_ hfuel
+    intro r hr
+    apply hrules
+    unfold rulesOf
+    rw [h]
+    exact hr
+  | _ => rw [h] at hlist; simp [PyVal.isList] at hlist
+
+/-! ### non-vacuity: three concrete documents, evaluated by the kernel on the CURRENT text of `compile` and on the model — the sort,
+  the `matched` flags, the order of the selection loop -/
 
 private def wrule (rid eff : String) (acts : List String) (res : List (String × PyVal)) : PyVal :=
   .dict [("id", .str rid), ("effect", .str eff), ("actions", .list (acts.map .str)), ("resource", .dict res)]
@@ -111,22 +292,13 @@ theorem witness_most_specific_first (o : Oracle) (c : Consts) :
     Src.compile_decide o noAttr (parseDtExt o) (relExt cx) pol wenv 40 = wout "deny" "explicit_deny" "mine" ∧
       (compiledDecide cx c pol).map encRaw = wout "deny" "explicit_deny" "mine" := ⟨rfl, rfl⟩
 
-/- The full statement (not yet proved; see the header):
-
-theorem compile_decide_src (cx : CondCtx) (c : Consts) (policy : PyVal) (fuel : Nat)
-    (hc : c.compilerDefault = Src.compile_default)
-    (hpol : policy.isDict = true) (hsingle : policy.hasKey "policies" = false) (henv : cx.env.isDict = true)
-    (hres : (por (cx.env.get "resource") (.dict [])).isDict = true)
-    (rs : List PyVal) (hlist : por (policy.get "rules") (.list []) = .list rs) (hrules : ∀ r ∈ rs, r.isDict = true)
-    (hfuel : policy.size + 2 < fuel) :
-    Src.compile_decide cx.o noAttr (parseDtExt cx.o) (relExt cx) policy cx.env fuel = (compiledDecide cx c policy).map encRaw
--/
-
 end Rbacx.Translated
 
 #print axioms Rbacx.Translated.compile_decide_set_delegates
 #print axioms Rbacx.Translated.compile_decide_set
 #print axioms Rbacx.Translated.compile_decide_algorithm_error
+#print axioms Rbacx.Translated.compile_decide_src
+#print axioms Rbacx.Translated.compile_decide_whole
 #print axioms Rbacx.Translated.witness_document_order
 #print axioms Rbacx.Translated.witness_unmatched_bucket
 #print axioms Rbacx.Translated.witness_most_specific_first
